@@ -58,6 +58,18 @@ theorem replicateStr_mem (n : Nat) (s : Str) (c : Nat) (h : c ∈ replicateStr n
     · exact h
     · exact ih h
 
+theorem expandUnit_some (row : Row) (s : Str) (c : Str × Nat) (h : expandUnit row s = some c) :
+    (startsWith (stripSokuons s).2 row.1 || startsWith (stripSokuons s).2 row.2.1) = true ∧
+    c = (replicateStr (stripSokuons s).1 (row.2.2.take 1) ++ row.2.2, row.1.length + (stripSokuons s).1) := by
+  unfold expandUnit at h
+  split at h
+  · next hc =>
+    split at h
+    · cases h
+    · simp only [Option.some.injEq] at h
+      exact ⟨hc, h.symm⟩
+  · cases h
+
 /-- A chosen candidate comes from a table row: its letters are the row's letters, and it consumes
 one character (the sokuon row) or the row's kana plus the sokuon run. -/
 theorem candidate_spec (sorted : List Row) (s : Str) (c : Str × Nat) (h : c ∈ candidates sorted s) :
@@ -70,15 +82,13 @@ theorem candidate_spec (sorted : List Row) (s : Str) (c : Str × Nat) (h : c ∈
   split at he
   · simp only [Option.some.injEq] at he; subst he
     exact ⟨fun x hx => hx, Or.inl rfl⟩
-  · unfold expandUnit at he
-    split at he
-    · simp only [Option.some.injEq] at he; subst he
-      refine ⟨fun x hx => ?_, Or.inr rfl⟩
-      simp only [List.mem_append] at hx
-      rcases hx with hx | hx
-      · exact List.mem_of_mem_take (replicateStr_mem _ _ x hx)
-      · exact hx
-    · cases he
+  · obtain ⟨_, he⟩ := expandUnit_some row s c he
+    subst he
+    refine ⟨fun x hx => ?_, Or.inr rfl⟩
+    simp only [List.mem_append] at hx
+    rcases hx with hx | hx
+    · exact List.mem_of_mem_take (replicateStr_mem _ _ x hx)
+    · exact hx
 
 theorem toRomaSequence_progress (sorted : List Row) (hne : hiraNonEmpty sorted = true)
     (s : Str) (hs : s ≠ []) : (toRomaSequence sorted s).2.length < s.length := by
